@@ -307,6 +307,18 @@ func TestC18(t *testing.T) {
 				}
 			}
 		}
+		if rapid.IntRange(0, 5).Draw(t, "big-config") == 0 {
+			// a configuration of 90-200 KiB (a large raw extension), written with its keys in reverse order so that alias and
+			// issuer stand at the very end of the document: they count wherever they stand
+			i := rapid.IntRange(0, n-1).Draw(t, "big-which")
+			blob := make([]byte, rapid.SampledFrom([]int{70000, 150000}).Draw(t, "big-size"))
+			for j := range blob {
+				blob[j] = byte(j * 13)
+			}
+			w.Ents[i].Extensions = append(w.Ents[i].Extensions, core.Extension{Kind: core.KCUSTOM, OID: "1.2.3.4.5.6", Raw: core.Bin(blob)})
+			w.Ents[i].RevKeys = true
+			c.W = w
+		}
 		c.W.Files = map[string][]byte{}
 		for i := range w.Ents {
 			// leftovers of an interrupted earlier run or a hand edit: an artifact that is only a (cut-off / non-base64) hash line
